@@ -670,7 +670,7 @@ func (fc *FnCtx) loopBack(st *State, n int, pos token.Pos) {
 	st.live = tFalse
 }
 
-func (fc *FnCtx) forStmt(st *State, s *ast.ForStmt, label string) {
+func (fc *FnCtx) forStmtOld(st *State, s *ast.ForStmt, label string) {
 	if s.Init != nil {
 		fc.stmt(st, s.Init)
 	}
@@ -705,7 +705,7 @@ func (fc *FnCtx) forStmt(st *State, s *ast.ForStmt, label string) {
 	fc.runLoopAnchors(st, "loopexit", n, s.Body.Rbrace)
 }
 
-func (fc *FnCtx) rangeStmt(st *State, s *ast.RangeStmt, label string) {
+func (fc *FnCtx) rangeStmtOld(st *State, s *ast.RangeStmt, label string) {
 	x := fc.expr(st, s.X)
 	xt := fc.typeOf(s.X)
 	fc.loopOrd++
